@@ -23,6 +23,8 @@ PANIC_TABLE = {
         'ifaces[key] behind contains_key(key) (checked by C03.R4)',
     'varlink:index:core::str::traits::<impl Index<I> for str>::index<-call:serde_json::from_slice|call:impl str::rfind':
         "method[..n]: n is the byte position of an ASCII '.' returned by rfind on the same string, always a char boundary",
+    'varlink:index:core::str::traits::<impl Index<I> for str>::index<-*|call:impl str::rfind':
+        "method[..n]: n is the byte position of an ASCII '.' returned by rfind on the same string, always a char boundary",
     'varlink:unwrap:Option::unwrap<-arg':
         'call.request.as_ref().unwrap(): Call::new always stores Some(request) (C04.R1 request-stored); upgraded calls never reach Interface::call',
     'varlink:unwrap:Option::unwrap<-arg+field:request':
@@ -133,6 +135,10 @@ def r3(cx):
             if ps["mac"] and ("eprintln" in ps["mac"] or "format" in ps["mac"]): continue
             n += 1
             key = "%s:%s" % (b.pkg, ps["skey"])
+            if key not in PANIC_TABLE and ps["kind"] == "index":
+                # for an index expression the reviewed reason is about the index value; where the container came from may differ
+                gk = re.sub(r"<-[^|]*\|", "<-*|", key)
+                if gk in PANIC_TABLE: key = gk
             if key in PANIC_TABLE: cx.ok("C06.R3", key, "%s %s" % (ps["sp"], b.path), "table: " + PANIC_TABLE[key])
             else: cx.bad("C06.R3", key, "%s %s" % (ps["sp"], b.path), "new may-panic construct (%s %s) on the request path: a peer-controlled value reaching it would kill the worker; it needs a reviewed table entry" % (ps["kind"], ps["what"]))
     cx.floor("C06.R3", "library functions on the request path", len(bodies), 15)
